@@ -2,8 +2,8 @@
    document that is the written schema read as JSON (same kind at every position, every
    property and every array element present) is accepted by the operational validator model
    and has the example's shape, whatever KeysAreOptionalByDefault is, and also when the schema
-   has nullable containers (the example of a nullable container is a container, not null, so
-   the known finding C01-nullable-container does not bite).
+   has nullable containers (the example of a nullable container is a container, not null; the
+   former finding C01-nullable-container, repaired by commit 3827ce7, never concerned it).
    Hypothesis [keys_distinct w]: no object of the written schema repeats a key (the library
    rejects such a schema with error 402); without it the statement is false, because the
    first member with a key governs ([C04_example_dup_keys_refuted]).
@@ -14,7 +14,6 @@ Import ListNotations.
 From JS Require Import Common.Wire Schema.Shape Schema.ShapeProofs Schema.ShapeSelf.
 
 Theorem C04_self_valid : forall optd w, keys_distinct w = true ->
-  no_nullable_container (compile optd w) = true ->
   validate (compile optd w) (example_value w) = None.
 Proof. exact self_valid. Qed.
 Print Assumptions C04_self_valid.
